@@ -130,6 +130,32 @@ func checkC08(r *core.Result) {
 					}
 				}
 				r.GroupOb("T-error", grp, lbl, apos, len(dropped) == 0, "decoder error not propagated: "+strings.Join(dropped, "; "))
+				// polarity: inside the arm every comparison of an error with nil is `!= nil` on a branch that leaves with an error
+				badPol := ""
+				for _, st := range a.clause.Body {
+					ast.Inspect(st, func(n ast.Node) bool {
+						is, ok := n.(*ast.IfStmt)
+						if !ok {
+							return true
+						}
+						b, ok := is.Cond.(*ast.BinaryExpr)
+						if !ok || (b.Op != token.EQL && b.Op != token.NEQ) || !isNilIdentExpr(b.Y) {
+							return true
+						}
+						id, ok := b.X.(*ast.Ident)
+						if !ok {
+							return true
+						}
+						if t := info.TypeOf(id); t == nil || t.String() != "error" {
+							return true
+						}
+						if b.Op != token.NEQ || !returnsError(info, is.Body.List) {
+							badPol = types.ExprString(is.Cond)
+						}
+						return true
+					})
+				}
+				r.GroupOb("T-error-polarity", grp, lbl, apos, badPol == "", "an error is tested as `"+badPol+"`: the arm reports a failure as success or a success as failure")
 				if a.field != nil && a.field.Desc.IsMap() {
 					checkMapEntryArm(r, info, mc, ex, a, lbl)
 					checkMapInnerWireTypes(r, info, mc, ex, a, grp, lbl)
